@@ -31,6 +31,10 @@ import XotModel.Lemmas.ArenaRemoveRoot
 import XotModel.Lemmas.FpxRefineMain
 import XotModel.Lemmas.FpxRefineDedupLoop
 import XotModel.Lemmas.FhistMono
+import XotModel.Lemmas.ReachHist
+import XotModel.Lemmas.ReachAxes
+import XotModel.Lemmas.ReachScope
+import XotModel.Lemmas.ReachRepresentable
 
 namespace XotModel.Props
 open XotModel
@@ -1546,53 +1550,7 @@ end XotModel.Props
 
 /-! # ================================================================================================
     # STALE IDS (branch wt-stale): calls with removed / stale / foreign ids at the arena level
-    # ================================================================================================
-
-  `Arena.classify a x` (Lemmas/ArenaStale.lean) sorts every id into exactly one class with respect to
-  the arena: `live` (the current id of a slot that holds a node), `freed` (removed: the slot is on the
-  free list and has handed out the id's stamp before), `stale` (removed: the slot holds a node again,
-  under a later stamp), `foreign` (never issued: out of range, index 0, negative stamp, or a stamp the
-  slot has not reached).  `Arena.Removed` = `freed` or `stale`.  Decidable (a computable function).
-
-  What indextree 4.7.2 DOES with such ids — proved from the definitions of the pointer-level model,
-  for all arenas (the correspondence suite `arena` compares the same calls with the crate):
-
-    reads         `NodeId::is_removed`: `true` for every removed id, index panic beyond the slot vector;
-                  `Arena::get`: no stamp check — the freed slot itself (`Node::is_removed()` true) resp.
-                  the NEW occupant; `arena[id].get()`: `unreachable!` on a freed slot; no accessor and
-                  no iterator ever writes (`C04_arena_stale_reads`, `_read_only`);
-    `checked_*`   a FREED id in either position: `Err(Removed)`; beyond the slot vector: index panic;
-                  the same id twice: the `…Self` error — all before the first write
-                  (`C04_arena_stale_checked`).  A STALE id is NOT refused: `Removed` is decided by the
-                  sign of the SLOT's stamp, the call goes on with the new occupant
-                  (`C04_arena_stale_passes_removed_check`; closed examples in `Props/C06`);
-    `detach`      no stamp is looked at.  On a slot without parent / sibling pointers (every slot freed
-                  by `remove`, the root freed by `remove_subtree`): `Ok`, arena unchanged
-                  (`C04_arena_stale_detach_partial`).  In general pointers only are written
-                  (`C04_arena_stale_detach_meta`: stamps, payloads, free list, the class of every id are
-                  as before) — but with the stale pointers of a slot freed INSIDE a removed subtree these
-                  are the pointers of the former neighbours' slots, whoever occupies them now: the full
-                  statement is false (`C04_arena_stale_detach_Statement_false`: a live node loses its
-                  children);
-    `remove`, `remove_subtree`
-                  no stamp is looked at: `free_node` runs again (DOUBLE FREE).  On a freed slot whose
-                  five pointers are `None`: `Ok`; the stamp `c < 0` becomes `-c - 1 ≥ 0` over a `NextFree`
-                  payload, the slot is linked into the free list a second time; the arena reached is
-                  NOT well-formed and the id removed last from that slot is reported NOT removed again
-                  (`C04_arena_stale_remove_double_free`; so `C04_arena_stale_remove_Statement` is false);
-    one-argument calls with a STALE id
-                  `detach`, `remove`, `remove_subtree` use the slot index only: the NEW OCCUPANT of the slot
-                  is detached / removed / removed with its subtree, as the refinement theorems say for its
-                  current id; the arena stays well-formed (`C04_arena_stale_acts_on_new_occupant`);
-    iterators     from a removed id: no refusal; they follow whatever pointers the slot keeps; on a
-                  slot whose five pointers are `None` they yield the removed id ITSELF and no children
-                  (`C04_arena_stale_iterators`).
-
-  The headline, `C04_arena_never_hands_out_removed`: in every well-formed (hence every reachable)
-  arena, every pointer read from a live node and every id yielded by ANY iterator started at a live
-  id — for every limit — is a live id; `get_node_id_at` answers live ids only.
--/
-
+    # =========================================================================================
 namespace XotModel.Props
 open XotModel
 
@@ -1949,5 +1907,265 @@ example : Arena.FreedArg Arena.sampleF ⟨3, 0⟩ ⟨9, 0⟩ ∧ Arena.FreedArg 
     Arena.Stale Arena.sampleH ⟨2, 0⟩ :=
   ⟨Or.inl ⟨_, rfl, by decide⟩, Or.inr ⟨⟨_, rfl, by decide⟩, ⟨_, rfl, by decide⟩⟩,
    Or.inr ⟨⟨_, rfl, by decide⟩, rfl⟩, Arena.liveId_of_isLiveId (by decide), ⟨_, rfl, by decide, by decide⟩⟩
+
+end XotModel.Props
+
+/-! # ================================================================================================
+
+  `Arena.classify a x` (Lemmas/ArenaStale.lean) sorts every id into exactly one class with respect to
+  the arena: `live` (the current id of a slot that holds a node), `freed` (removed: the slot is on the
+  free list and has handed out the id's stamp before), `stale` (removed: the slot holds a node again,
+  under a later stamp), `foreign` (never issued: out of range, index 0, negative stamp, or a stamp the
+  slot has not reached).  `Arena.Removed` = `freed` or `stale`.  Decidable (a computable function).
+
+  What indextree 4.7.2 DOES with such ids — proved from the definitions of the pointer-level model,
+  for all arenas (the correspondence suite `arena` compares the same calls with the crate):
+
+    reads         `NodeId::is_removed`: `true` for every removed id, index panic beyond the slot vector;
+                  `Arena::get`: no stamp check — the freed slot itself (`Node::is_removed()` true) resp.
+                  the NEW occupant; `arena[id].get()`: `unreachable!` on a freed slot; no accessor and
+                  no iterator ever writes (`C04_arena_stale_reads`, `_read_only`);
+    `checked_*`   a FREED id in either position: `Err(Removed)`; beyond the slot vector: index panic;
+                  the same id twice: the `…Self` error — all before the first write
+                  (`C04_arena_stale_checked`).  A STALE id is NOT refused: `Removed` is decided by the
+                  sign of the SLOT's stamp, the call goes on with the new occupant
+                  (`C04_arena_stale_passes_removed_check`; closed examples in `Props/C06`);
+    `detach`      no stamp is looked at.  On a slot without parent / sibling pointers (every slot freed
+                  by `remove`, the root freed by `remove_subtree`): `Ok`, arena unchanged
+                  (`C04_arena_stale_detach_partial`).  In general pointers only are written
+                  (`C04_arena_stale_detach_meta`: stamps, payloads, free list, the class of every id are
+                  as before) — but with the stale pointers of a slot freed INSIDE a removed subtree these
+                  are the pointers of the former neighbours' slots, whoever occupies them now: the full
+                  statement is false (`C04_arena_stale_detach_Statement_false`: a live node loses its
+                  children);
+    `remove`, `remove_subtree`
+                  no stamp is looked at: `free_node` runs again (DOUBLE FREE).  On a freed slot whose
+                  five pointers are `None`: `Ok`; the stamp `c < 0` becomes `-c - 1 ≥ 0` over a `NextFree`
+                  payload, the slot is linked into the free list a second time; the arena reached is
+                  NOT well-formed and the id removed last from that slot is reported NOT removed again
+                  (`C04_arena_stale_remove_double_free`; so `C04_arena_stale_remove_Statement` is false);
+    one-argument calls with a STALE id
+                  `detach`, `remove`, `remove_subtree` use the slot index only: the NEW OCCUPANT of the slot
+                  is detached / removed / removed with its subtree, as the refinement theorems say for its
+                  current id; the arena stays well-formed (`C04_arena_stale_acts_on_new_occupant`);
+    iterators     from a removed id: no refusal; they follow whatever pointers the slot keeps; on a
+                  slot whose five pointers are `None` they yield the removed id ITSELF and no children
+                  (`C04_arena_stale_iterators`).
+
+  The headline, `C04_arena_never_hands_out_removed`: in every well-formed (hence every reachable)
+  arena, every pointer read from a live node and every id yielded by ANY iterator started at a live
+  id — for every limit — is a live id; `get_node_id_at` answers live ids only.
+-/
+=======
+    # REACHABLE TREES (branch wt-reach): the invariant gives the structural hypotheses of the
+    # tree-level theorems (C01, C07, C09, C10, C13, C15)
+    # ================================================================================================
+
+  Many property theorems are about a plain `Tree` (+ `Path`) and assume structural hypotheses: `wf` /
+  `kidsSorted` (C07), `Tree.valid` / `contentLeaves` / `noInnerDocument` (C13), `UniqueDeclsBelow` (C09, C15),
+  `UniqueBelow` (C10), `OnlyElementsDeclare` (C15), `StructValid` (C10), the structural part of
+  `Representable` (C01).  This section is the BRIDGE: `Forest.Inv f` implies every one of them for the
+  erasure `r.erase` of every parentless tree `r` of `f`, at every node (Lemmas/ReachNode.lean: one mutual
+  structural induction over `HTree`, `Reach.forall_erase`, turns each local clause of `validTree` into a
+  `Tree.Forall` fact; ReachAxes / ReachCompare / ReachScope / ReachRepresentable derive the predicates of
+  the single properties from those at the tree level).  With `C04_reach_ext` they hold for every forest
+  reachable from the empty store by an extended history, with no hypothesis on the tree at all.
+
+  The restated headline theorems live where their vocabulary can be imported together with the
+  forest lemma families: `C07_reachable_*` in Props/C07.lean, `C13_reachable_*` in Props/C13.lean (its
+  lemma family cannot be imported here: `XotModel.mem_of_lookup` is declared twice), `C09_reachable_*` in
+  Props/C09.lean; Props/C01, C10, C15 cannot import the forest families (`XotModel.Frame`), so their
+  hypotheses are derived HERE (`C04_reachable_hypotheses`, `C01_reachable_representable`) next to the
+  existing `C10_forest_*` / `C15_forest_*` corollaries.  C16 (token / event streams) has no structural
+  hypothesis to discharge: its theorems hold for every tree and every start path as they stand. -/
+
+namespace XotModel.Props
+open XotModel
+
+/-- ⟦C04_inv_structure⟧ **The bridge.**  In a forest with the invariant, at EVERY node (path `p`, value `v`,
+    children `ks`) of the erasure of EVERY parentless tree: the children come as namespace nodes,
+    then attribute nodes, then normal nodes; text / comment / PI / attribute / namespace nodes are
+    leaves; only elements carry attribute and namespace nodes; a document node is never a child
+    (documents only at the root); attribute names and declared prefixes are unique per node; and —
+    while consolidation has never been switched off — no two adjacent children are text nodes. -/
+theorem C04_inv_structure (f : Forest) (hi : f.Inv) :
+    ∀ r ∈ f.roots, ∀ (p : Path) (v : Value) (ks : List Tree), r.erase.at? p = some (.node v ks) →
+      OrderedKids ks ∧
+      (v.isLeafKind = true → ks = []) ∧
+      (v.isElement = false → ∀ k ∈ ks, k.value.isNormal = true) ∧
+      (∀ k ∈ ks, k.value.isDocument = false) ∧
+      (attrNames ks).Nodup ∧ (nsPrefixes ks).Nodup ∧
+      (f.everOff = false → noAdjText ks = true) := by
+  intro r hr p v ks hat
+  have hs := Reach.structural_root hi hr
+  have h1 := Reach.forall_at _ p _ hs.ordered v ks hat
+  have h2 := Reach.forall_at _ p _ hs.kinds v ks hat
+  have h3 := Reach.forall_at _ p _ hs.unique v ks hat
+  exact ⟨h1, h2.1, h2.2.1, h2.2.2, h3.1, h3.2,
+    fun hoff => Reach.forall_at _ p _ (Reach.noAdjacentText_root hi hoff hr) v ks hat⟩
+
+/-- The same as `Tree.Forall` facts (Model/Valid.lean), `StructValid` for a document root. -/
+theorem C04_inv_structValid (f : Forest) (hi : f.Inv) :
+    ∀ r ∈ f.roots,
+      r.erase.Forall (fun _ ks => OrderedKids ks) ∧ r.erase.Forall KindsOk ∧
+      r.erase.Forall (fun _ ks => UniqueKids ks) ∧
+      (r.value.isDocument = true → StructValid r.erase) ∧
+      (f.everOff = false → NoAdjacentText r.erase) := by
+  intro r hr
+  have hs := Reach.structural_root hi hr
+  exact ⟨hs.ordered, hs.kinds, hs.unique, fun hd => Reach.structValid_root hi hr hd,
+    fun hoff => Reach.noAdjacentText_root hi hoff hr⟩
+
+/-- ⟦C04_reachable_structure⟧ **Every tree the API can build is structurally valid**: for every extended
+    history from the empty store (`C04_reach_ext`), every parentless tree of the result, every path. -/
+theorem C04_reachable_structure (env : Env) (cs : List Forest.XCall) (hw : ∀ c ∈ cs, c.wellKinded) :
+    ∀ r ∈ ((⟨Forest.init, env⟩ : Store).xrun cs).forest.roots,
+      (∀ (p : Path) (v : Value) (ks : List Tree), r.erase.at? p = some (.node v ks) →
+        OrderedKids ks ∧
+        (v.isLeafKind = true → ks = []) ∧
+        (v.isElement = false → ∀ k ∈ ks, k.value.isNormal = true) ∧
+        (∀ k ∈ ks, k.value.isDocument = false) ∧
+        (attrNames ks).Nodup ∧ (nsPrefixes ks).Nodup ∧
+        (((⟨Forest.init, env⟩ : Store).xrun cs).forest.everOff = false → noAdjText ks = true)) ∧
+      (r.value.isDocument = true → StructValid r.erase) ∧
+      (((⟨Forest.init, env⟩ : Store).xrun cs).forest.everOff = false → NoAdjacentText r.erase) := by
+  intro r hr
+  have hi := C04_reach_ext env cs hw
+  exact ⟨C04_inv_structure _ hi r hr, (C04_inv_structValid _ hi r hr).2.2.2.1, (C04_inv_structValid _ hi r hr).2.2.2.2⟩
+
+/-- ⟦C04_inv_hypotheses⟧ The structural hypotheses of the tree-level property theorems, from the invariant
+    alone (any forest, however it was reached): `wf` and `kidsSorted` at every node (C07), `UniqueBelow`
+    (C10), `UniqueDeclsBelow` of every subtree (C09, C15), `OnlyElementsDeclare` (C15). -/
+theorem C04_inv_hypotheses (f : Forest) (hi : f.Inv) :
+    ∀ r ∈ f.roots,
+      Axes.wf r.erase = true ∧
+      (∀ p : Path, Axes.kidsSorted (Axes.subAt r.erase p).kids) ∧
+      UniqueBelow r.erase ∧
+      (∀ (path : Path) (sub : Tree), r.erase.at? path = some sub → UniqueDeclsBelow sub) ∧
+      OnlyElementsDeclare r.erase :=
+  fun _ hr => ⟨Reach.wf_root hi hr, Reach.kidsSorted_root hi hr, Reach.uniqueBelow_root hi hr,
+    fun _ _ hs => Reach.uniqueDeclsBelow_root hi hr hs, Reach.onlyElementsDeclare_root hi hr⟩
+
+/-- ⟦C04_reachable_hypotheses⟧ **The structural hypotheses of the tree-level property theorems hold of
+    every reachable tree**: `wf` and `kidsSorted` at every node (C07), `UniqueBelow` (C10),
+    `UniqueDeclsBelow` of every subtree (C09, C15), `OnlyElementsDeclare` (C15).  (`Tree.valid`,
+    `contentLeaves`, `noInnerDocument`: `C13_reachable_valid` in Props/C13.lean.) -/
+theorem C04_reachable_hypotheses (env : Env) (cs : List Forest.XCall) (hw : ∀ c ∈ cs, c.wellKinded) :
+    ∀ r ∈ ((⟨Forest.init, env⟩ : Store).xrun cs).forest.roots,
+      Axes.wf r.erase = true ∧
+      (∀ p : Path, Axes.kidsSorted (Axes.subAt r.erase p).kids) ∧
+      UniqueBelow r.erase ∧
+      (∀ (path : Path) (sub : Tree), r.erase.at? path = some sub → UniqueDeclsBelow sub) ∧
+      OnlyElementsDeclare r.erase :=
+  C04_inv_hypotheses _ (C04_reach_ext env cs hw)
+
+/-- ⟦C04_reachable_parse⟧ The same for the histories that PARSE (`IdOp`: the calls of `Op` and
+    `Xot::parse` of a tree the parser builds, `C04_reach_parse`): every parentless tree of the store —
+    the parsed documents included — is structurally valid at every node, `StructValid` when its root
+    is a document node, and satisfies the hypotheses of the tree-level theorems. -/
+theorem C04_reachable_parse (ops : List IdOp) (hok : IdStore.init.runOK ops) :
+    ∀ r ∈ (IdStore.init.run ops).forest.roots,
+      (∀ (p : Path) (v : Value) (ks : List Tree), r.erase.at? p = some (.node v ks) →
+        OrderedKids ks ∧
+        (v.isLeafKind = true → ks = []) ∧
+        (v.isElement = false → ∀ k ∈ ks, k.value.isNormal = true) ∧
+        (∀ k ∈ ks, k.value.isDocument = false) ∧
+        (attrNames ks).Nodup ∧ (nsPrefixes ks).Nodup ∧
+        ((IdStore.init.run ops).forest.everOff = false → noAdjText ks = true)) ∧
+      (r.value.isDocument = true → StructValid r.erase) ∧
+      Axes.wf r.erase = true ∧
+      (∀ p : Path, Axes.kidsSorted (Axes.subAt r.erase p).kids) ∧
+      UniqueBelow r.erase ∧
+      (∀ (path : Path) (sub : Tree), r.erase.at? path = some sub → UniqueDeclsBelow sub) ∧
+      OnlyElementsDeclare r.erase := by
+  intro r hr
+  have hi := C04_reach_parse ops hok
+  exact ⟨C04_inv_structure _ hi r hr, (C04_inv_structValid _ hi r hr).2.2.2.1, C04_inv_hypotheses _ hi r hr⟩
+
+/-- ⟦C01_reachable_representable⟧ **The C01 domain of a reachable tree is a condition on its VALUES only.**
+    While consolidation has never been switched off, for every parentless tree of every reachable
+    forest and every interning table `env'`: `RepresentableFragment` / `Representable` (Model/SerTokens.lean)
+    hold exactly when the tables are well formed (`envOK`), the root is a document node, every node's
+    own value is writable (`valueOK`: names are NCNames, text is non-empty XML characters, …), the
+    `xml:id` values are distinct and (for `Representable`) there is exactly one top-level element and no
+    top-level text — the structural clauses of `nodeOK` (`OrderedKids`, `KindsOk`, `UniqueKids`, `noAdjText`)
+    are discharged by the invariant. -/
+theorem C01_reachable_representable (env : Env) (cs : List Forest.XCall) (hw : ∀ c ∈ cs, c.wellKinded)
+    (hoff : ((⟨Forest.init, env⟩ : Store).xrun cs).forest.everOff = false) :
+    ∀ r ∈ ((⟨Forest.init, env⟩ : Store).xrun cs).forest.roots, ∀ env' : Env,
+      RepresentableFragment env' r.erase =
+        (envOK env' && r.value.isDocument && r.erase.allNodes (fun v _ => valueOK env' v) &&
+          decide (xmlIdValues env' r.erase).Nodup) ∧
+      Representable env' r.erase =
+        (envOK env' && r.value.isDocument && r.erase.allNodes (fun v _ => valueOK env' v) &&
+          decide (xmlIdValues env' r.erase).Nodup && singleRoot r.erase) :=
+  fun _ hr env' => Reach.representable_root (C04_reach_ext env cs hw) hoff hr env'
+
+/-- Conversely the trees of the C01 domain are among those the bridge describes: a tree satisfying
+    `nodeOK` everywhere (in particular a `RepresentableFragment` tree) is structurally valid and has no
+    adjacent text nodes. -/
+theorem C01_representable_structural (env' : Env) (t : Tree) (h : RepresentableFragment env' t = true) :
+    t.Forall (fun _ ks => OrderedKids ks) ∧ t.Forall KindsOk ∧ t.Forall (fun _ ks => UniqueKids ks) ∧
+      NoAdjacentText t := by
+  simp only [RepresentableFragment, Bool.and_eq_true] at h
+  obtain ⟨hs, ha⟩ := Reach.structural_of_allNodes_nodeOK env' t h.1.2
+  exact ⟨hs.ordered, hs.kinds, hs.unique, ha⟩
+
+/-! ### Non-vacuity: the 16-step history `xhCalls` above
+
+  It IS the closed history of Lemmas/ReachHist.lean (`Reach.exCalls`, whose final forest is the one tree
+  `Reach.exRoot` = `<e xmlns:p=".." xmlns:n0=".."><e xmlns:n0="..">x</e></e>`; consolidation never off).  The
+  theorems instantiated at it, and their conclusions evaluated. -/
+
+example : xhCalls = Reach.exCalls ∧ xhEnv = Reach.exEnv ∧ xhStore = ⟨Forest.init, Reach.exEnv⟩ := ⟨rfl, rfl, rfl⟩
+example : (xhStore.xrun xhCalls).forest.roots = [Reach.exRoot] ∧ (xhStore.xrun xhCalls).forest.everOff = false := by
+  rw [show xhCalls = Reach.exCalls from rfl, show xhStore = ⟨Forest.init, Reach.exEnv⟩ from rfl]
+  exact ⟨Reach.exRoots, by decide +kernel⟩
+example : Reach.exRoot.erase.at? [2] =
+    some (.node (.element 1) [.node (.namespace 3 3) [], .node (.text ['x']) []]) := by decide
+example : OrderedKids [Tree.node (.namespace 3 3) [], .node (.text ['x']) []] ∧
+    (nsPrefixes [Tree.node (.namespace 3 3) [], .node (.text ['x']) []]).Nodup :=
+  let h := (C04_reachable_structure Reach.exEnv Reach.exCalls Reach.exCalls_wellKinded Reach.exRoot Reach.exRoot_mem).1
+    [2] (.element 1) _ (by decide)
+  ⟨h.1, h.2.2.2.2.2.1⟩
+example : Axes.wf Reach.exRoot.erase = true ∧ UniqueBelow Reach.exRoot.erase ∧ OnlyElementsDeclare Reach.exRoot.erase :=
+  let h := C04_reachable_hypotheses Reach.exEnv Reach.exCalls Reach.exCalls_wellKinded Reach.exRoot Reach.exRoot_mem
+  ⟨h.1, h.2.2.1, h.2.2.2.2⟩
+/-- The parsing history `idOps` above (`new_element`, then `parse` of a document with two `xml:id`s): its
+    parsed document is `StructValid`, by `C04_reachable_parse`. -/
+example : ∀ r ∈ (IdStore.init.run idOps).forest.roots, r.value.isDocument = true → StructValid r.erase :=
+  fun r hr => (C04_reachable_parse idOps ⟨trivial, (by show validTree _ _ = true; decide), trivial⟩ r hr).2.1
+example : ((IdStore.init.run idOps).forest.roots.map (fun r => r.value.isDocument)) = [false, true] := by
+  decide +kernel
+/-- The root of `Reach.exRoot` is an element, not a document: it is outside the C01 domain for that reason
+    alone (`C01_reachable_representable` evaluates the right-hand side). -/
+example : RepresentableFragment Reach.exEnv Reach.exRoot.erase = false := by
+  rw [(C01_reachable_representable Reach.exEnv Reach.exCalls Reach.exCalls_wellKinded (by decide +kernel)
+    Reach.exRoot Reach.exRoot_mem Reach.exEnv).1]
+  decide
+/-- A history that builds a document: `<!--c--><e a="v">x</e>` under a document node; the tree is
+    `StructValid`, and inside the C01 domain exactly when the values are (here: the tables are `envOK`,
+    every value is writable). -/
+def reachDocCalls : List Forest.XCall :=
+  [.newNode .document, .newNode (.element 0), .newNode (.text ['x']), .newNode (.comment ['c']),
+   .call (.append 0 3), .call (.append 0 1), .call (.append 1 2),
+   .call (.mapInsert .attributes 1 (.attribute 2 ['v']))]
+def reachDocEnv : Env :=
+  { namespaces := [[], xmlNamespaceUri], prefixes := [[], ['x','m','l']],
+    names := [(['e'], 0), (['i','d'], 1), (['a'], 0)] }
+def reachDocRoot : HTree :=
+  .node 0 .document [.node 3 (.comment ['c']) [],
+    .node 1 (.element 0) [.node 4 (.attribute 2 ['v']) [], .node 2 (.text ['x']) []]]
+theorem reachDocRoot_mem :
+    reachDocRoot ∈ ((⟨Forest.init, reachDocEnv⟩ : Store).xrun reachDocCalls).forest.roots := by
+  have : ((⟨Forest.init, reachDocEnv⟩ : Store).xrun reachDocCalls).forest.roots = [reachDocRoot] := by
+    decide +kernel
+  rw [this]; exact List.mem_singleton.mpr rfl
+example : StructValid reachDocRoot.erase :=
+  (C04_reachable_structure reachDocEnv reachDocCalls (by decide) reachDocRoot reachDocRoot_mem).2.1 rfl
+example : Representable reachDocEnv reachDocRoot.erase = true := by
+  rw [(C01_reachable_representable reachDocEnv reachDocCalls (by decide) (by decide +kernel)
+    reachDocRoot reachDocRoot_mem reachDocEnv).2]
+  decide +kernel
 
 end XotModel.Props
